@@ -576,6 +576,150 @@ func extractC14() *lean {
 		}
 	}
 
+	// ---- construction side (NutsModel.C14.Options / Api): option bodies, NewNotifier defaults + option loop, shelf name,
+	//      isPersistent, the check order of Save, state.Notifier (registry), api/v1 ListEvents
+	{
+		var optBodies []string
+		for _, name := range []string{"WithRetryDelay", "WithPersistency", "WithSelectionFilter", "WithContext", "withCounters"} {
+			fd := funcDecl(nf, name)
+			var as []string
+			if fd != nil {
+				ast.Inspect(fd, func(n ast.Node) bool {
+					if a, ok := n.(*ast.AssignStmt); ok && len(a.Lhs) == 1 && strings.HasPrefix(exprString(a.Lhs[0]), "notifier.") {
+						as = append(as, exprString(a.Lhs[0])+" "+a.Tok.String()+" "+c14Expr(a.Rhs[0]))
+					}
+					return true
+				})
+			}
+			optBodies = append(optBodies, name+": "+strings.Join(as, "; "))
+		}
+		l.def("notifierOptionBodies", "List String", leanStrList(optBodies), optBodies)
+		var newDefaults, newLoop []string
+		if fd := funcDecl(nf, "NewNotifier"); fd != nil {
+			ast.Inspect(fd, func(n ast.Node) bool {
+				switch x := n.(type) {
+				case *ast.CompositeLit:
+					if exprString(x.Type) == "notifier" {
+						for _, el := range x.Elts {
+							newDefaults = append(newDefaults, c14Expr(el))
+						}
+					}
+				case *ast.RangeStmt:
+					var body []string
+					for _, st := range x.Body.List {
+						if es, ok := st.(*ast.ExprStmt); ok {
+							body = append(body, c14Expr(es.X))
+						} else {
+							body = append(body, fmt.Sprintf("<%T>", st))
+						}
+					}
+					newLoop = append(newLoop, "range "+c14Expr(x.X)+" { "+strings.Join(body, "; ")+" }")
+				}
+				return true
+			})
+		}
+		l.def("newNotifierDefaults", "List String", leanStrList(newDefaults), newDefaults)
+		l.def("newNotifierOptionLoop", "List String", leanStrList(newLoop), newLoop)
+		shelfFmt, persistentExpr := "", ""
+		for _, d := range nf.Decls {
+			fd, ok := d.(*ast.FuncDecl)
+			if !ok || fd.Body == nil || len(fd.Body.List) != 1 {
+				continue
+			}
+			r, ok := fd.Body.List[0].(*ast.ReturnStmt)
+			if !ok || len(r.Results) != 1 {
+				continue
+			}
+			switch fd.Name.Name {
+			case "shelfName":
+				if ce, ok := r.Results[0].(*ast.CallExpr); ok && exprString(ce.Fun) == "fmt.Sprintf" && len(ce.Args) == 2 && exprString(ce.Args[1]) == "p.name" {
+					if bl, ok := ce.Args[0].(*ast.BasicLit); ok {
+						shelfFmt, _ = strconv.Unquote(bl.Value)
+					}
+				}
+			case "isPersistent":
+				persistentExpr = c14Expr(r.Results[0])
+			}
+		}
+		// the format must be <prefix>%s<suffix>: the model's shelfName is prefix ++ name ++ suffix
+		parts := strings.Split(shelfFmt, "%s")
+		if len(parts) == 2 && !strings.Contains(parts[0]+parts[1], "%") {
+			l.def("shelfNamePrefix", "String", fmt.Sprintf("%q", parts[0]), parts[0])
+			l.def("shelfNameSuffix", "String", fmt.Sprintf("%q", parts[1]), parts[1])
+		} else {
+			l.def("shelfNamePrefix", "String", ".unknown_shelf_name_format", shelfFmt)
+			l.def("shelfNameSuffix", "String", ".unknown_shelf_name_format", shelfFmt)
+		}
+		l.def("isPersistentExpr", "String", fmt.Sprintf("%q", persistentExpr), persistentExpr)
+		saveRet := c14Returns(nf, "Save")
+		l.def("saveReturns", "List String", leanStrList(saveRet), saveRet)
+		regRet := c14Returns(sf, "Notifier")
+		l.def("stateNotifierReturns", "List String", leanStrList(regRet), regRet)
+		var regCalls []string
+		if fd := funcDecl(sf, "Notifier"); fd != nil {
+			ast.Inspect(fd, func(n ast.Node) bool {
+				if ce, ok := n.(*ast.CallExpr); ok {
+					switch f := exprString(ce.Fun); f {
+					case "append", "NewNotifier", "s.notifiers.LoadOrStore", "s.notifiers.Store", "s.notifiers.Load", "s.notifiers.Swap", "s.notifiers.Delete":
+						regCalls = append(regCalls, c14Expr(ce))
+					}
+				}
+				return true
+			})
+		}
+		l.def("stateNotifierCalls", "List String", leanStrList(regCalls), regCalls)
+		_, apif := parseFile("network/api/v1/api.go")
+		leRet := c14Returns(apif, "ListEvents")
+		l.def("listEventsReturns", "List String", leanStrList(leRet), leRet)
+		var leFields, leAppends []string
+		if fd := funcDecl(apif, "ListEvents"); fd != nil {
+			ast.Inspect(fd, func(n ast.Node) bool {
+				if x, ok := n.(*ast.CompositeLit); ok {
+					if t := exprString(x.Type); t == "Event" || t == "EventSubscriber" {
+						for _, el := range x.Elts {
+							leFields = append(leFields, t+"."+c14Expr(el))
+						}
+					}
+				}
+				return true
+			})
+			// every append with the loops / conditions it sits under
+			var walk func(n ast.Node, guards []string)
+			walk = func(n ast.Node, guards []string) {
+				switch x := n.(type) {
+				case *ast.BlockStmt:
+					for _, st := range x.List {
+						walk(st, guards)
+					}
+				case *ast.IfStmt:
+					walk(x.Body, append(append([]string{}, guards...), "if "+c14Expr(x.Cond)))
+					if x.Else != nil {
+						walk(x.Else, append(append([]string{}, guards...), "else"))
+					}
+				case *ast.RangeStmt:
+					walk(x.Body, append(append([]string{}, guards...), "range "+c14Expr(x.X)))
+				case *ast.ForStmt:
+					walk(x.Body, append(append([]string{}, guards...), "for"))
+				case *ast.BranchStmt:
+					leAppends = append(leAppends, strings.Join(guards, " > ")+" > "+x.Tok.String())
+				case *ast.AssignStmt:
+					if len(x.Rhs) == 1 {
+						if ce, ok := x.Rhs[0].(*ast.CallExpr); ok && exprString(ce.Fun) == "append" && len(ce.Args) == 2 {
+							arg := c14Expr(ce.Args[1])
+							if cl, ok := ce.Args[1].(*ast.CompositeLit); ok {
+								arg = exprString(cl.Type) + "{…}"
+							}
+							leAppends = append(leAppends, strings.Join(guards, " > ")+" > "+exprString(x.Lhs[0])+" = append("+c14Expr(ce.Args[0])+", "+arg+")")
+						}
+					}
+				}
+			}
+			walk(fd.Body, nil)
+		}
+		l.def("listEventsFields", "List String", leanStrList(leFields), leFields)
+		l.def("listEventsAppends", "List String", leanStrList(leAppends), leAppends)
+	}
+
 	// ---- state.go WritePayload: the `payloadWritten` guard of the AfterCommit notification, as a trace of the statements
 	//      that matter (where the flag is set, the skip return, saveEvent, the marker, notify) with their closure
 	//      (top / tx = the write transaction / afterCommit) and the if-conditions they sit under
